@@ -12,3 +12,9 @@ func VerifCompatDB(m *MetaDB) *DB {
 	}
 	return &DB{meta: m, engine: m.engine}
 }
+
+// VerifLockHashSlot takes the hash-slot mutex every mutating Shard/Batch method serialises on and
+// returns its unlock function (used to steer the concurrent C15 op: queue writers behind the lock).
+func VerifLockHashSlot(m *MetaDB, hashSlot HashSlot) func() {
+	return m.lockHashSlots([]HashSlot{hashSlot})
+}
